@@ -256,6 +256,48 @@ func genC15(c *Ctx) {
 		}
 		c.add("bsu", s(r.Intn(500)), s(1+r.Intn(80)), lens)
 	}
+	// consecutive blobs in one call whose lengths straddle a power of four (the minimal square side, which
+	// caps the width, doubles there) while ceil(len/threshold) stays the same, for every threshold 1..130, at
+	// aligned and misaligned cursors: each blob must be aligned to ITS OWN width (the fold recomputed from
+	// SubTreeWidth / NextShareIndex, and the model)
+	for t := 1; t <= 130; t++ {
+		for k := 1; k <= 6; k++ {
+			p4 := 1 << uint(2*k)
+			for variant := 0; variant < 2; variant++ {
+				lensI := []int{p4, p4 + 1}
+				if variant == 1 {
+					lensI = []int{p4 + 1, p4, p4 - 1, p4 + 2}
+				}
+				for _, cur := range []int{0, p4 + r.Intn(2*p4), 1 + r.Intn(7)} {
+					want := []uint32{}
+					pos := cur
+					for _, n := range lensI {
+						w := inclusion.SubTreeWidth(n, t)
+						pos = inclusion.NextShareIndex(pos, n, t)
+						c.check(pos%w == 0, "NextShareIndex", "not a multiple of the blob's subtree width", map[string]any{"cursor": cur, "threshold": t, "len": n})
+						want = append(want, uint32(pos))
+						pos += n
+					}
+					used, idx := inclusion.BlobSharesUsedNonInteractiveDefaults(cur, t, lensI...)
+					ok := used == pos-cur && len(idx) == len(want)
+					for j := 0; ok && j < len(idx); j++ {
+						ok = idx[j] == want[j]
+					}
+					c.check(ok, "BlobSharesUsedNonInteractiveDefaults", "differs from aligning each blob to its own subtree width in turn",
+						map[string]any{"cursor": cur, "threshold": t, "lens": fmt.Sprint(lensI)})
+					ls := ""
+					for j, n := range lensI {
+						if j > 0 {
+							ls += ","
+						}
+						ls += s(n)
+					}
+					c.add("bsu", s(cur), s(t), ls)
+					c.count("bsu_power_of_four_straddle")
+				}
+			}
+		}
+	}
 }
 
 func genC13(c *Ctx) {
@@ -549,6 +591,38 @@ func genC13(c *Ctx) {
 			}
 		}
 	}
+	// prediction vs encoding for compact sequences written with share version 0 and 1 (a compact share
+	// never carries a signer, whatever its version): every sequence length around one to three shares, so
+	// that every count of free bytes in the last share occurs
+	for target := 440; target <= 1440; target++ {
+		for ver := uint8(0); ver <= 1; ver++ {
+			ns := share.TxNamespace
+			if target%2 == 1 {
+				ns = share.PayForBlobNamespace
+			}
+			css := share.NewCompactShareSplitter(ns, ver)
+			unit := bytes.Repeat([]byte{byte(target)}, target-2) // two-byte length prefix
+			_ = css.WriteTx(unit)
+			cnt := css.Count()
+			shs, err := css.Export()
+			wit := map[string]any{"share_version": int(ver), "sequence_len": target}
+			if !c.check(err == nil && len(shs) > 0, "CompactShareSplitter.Export", "error", wit) {
+				continue
+			}
+			want := share.CompactSharesNeeded(uint32(target))
+			c.check(cnt == len(shs) && want == len(shs), "CompactSharesNeeded", "predicted share count differs from the shares produced", wit)
+			need, err := share.VerifNumberOfSharesNeeded(shs[0])
+			c.check(err == nil && need == len(shs), "numberOfSharesNeeded", "predicted share count of a compact sequence differs from the shares produced", wit)
+			seqs, err := share.ParseShares(shs, false)
+			c.check(err == nil && len(seqs) == 1 && len(seqs[0].Shares) == len(shs), "ParseShares", "the library's own compact sequence is not accepted as one sequence", wit)
+			c.count(fmt.Sprintf("compact_sequence_v%d", ver))
+			if target%23 == 0 || (target-474)%478 < 3 || (target-474)%478 > 455 {
+				c.add("parseshares", "0", joinHexList(rawShares(shs)))
+			} else {
+				c.goOnly++
+			}
+		}
+	}
 }
 
 // ---- C18 ----
@@ -713,8 +787,38 @@ func genC18(c *Ctx) {
 			}
 		}
 	}
+	type v0in struct {
+		l    int
+		fill int // 0 random, 1 all zero, 2 zero except the last 10 bytes, 3 zero except the last byte, 4 all 0xff
+	}
+	var v0ins []v0in
 	for _, l := range []int{0, 1, 5, 9, 10, 11, 29} {
+		v0ins = append(v0ins, v0in{l, 0})
+	}
+	// every length 0..40 with content that only a length test rejects (zero bytes in the excess positions)
+	for l := 0; l <= 40; l++ {
+		for fill := 1; fill <= 4; fill++ {
+			v0ins = append(v0ins, v0in{l, fill})
+		}
+	}
+	for _, in := range v0ins {
+		l := in.l
 		sub := r.Bytes(l)
+		switch in.fill {
+		case 1:
+			sub = make([]byte, l)
+		case 2:
+			for i := 0; i < l-10; i++ {
+				sub[i] = 0
+			}
+		case 3:
+			sub = make([]byte, l)
+			if l > 0 {
+				sub[l-1] = 1 + byte(r.Intn(255))
+			}
+		case 4:
+			sub = bytes.Repeat([]byte{0xff}, l)
+		}
 		c.add("nsv0", hx(sub))
 		ns, err := share.NewV0Namespace(sub)
 		c.check((err == nil) == (l <= 10), "NewV0Namespace", "acceptance", map[string]any{"sub": hx(sub)})
